@@ -2,8 +2,9 @@
     Over the registries regenerated from /repo on every run (pass-1 handler table, ocode kinds,
     codegen dispatch, no-operand opcode map, grammar mnemonic list):
     - a grammar mnemonic without a pass-1 handler is diagnosed ("error: No handler found");
-    - a mnemonic whose handler advances LOC but whose ocode kind does not exist is dropped by
-      Emit without any message: this set is exactly ADC, DEC, INC, NEG, SBB (known finding);
+    - a mnemonic whose handler advances LOC but whose ocode kind does not exist is rejected by
+      Emit: this set is exactly ADC, DEC, INC, NEG, SBB; since fix e3d2ac2 the rejection is
+      reported at error level (it used to be silent);
     - every other handled mnemonic reaches a codegen case or the one-byte table.
     If the source changes any of these sets the theorem no longer checks. *)
 From Coq Require Import List ZArith String Bool.
@@ -12,7 +13,7 @@ Import ListNotations.
 Local Open Scope string_scope.
 
 Definition pseudo (h : string) := existsb (String.eqb h) ["processORG"; "processGLOBAL"; "processEXTERN"].
-Definition silently_dropped : list string :=
+Definition silently_dropped (* name kept: the set Emit rejects *) : list string :=
   map fst (filter (fun kv => negb (pseudo (snd kv)) && negb (kind_known (fst kv))) pass1_handlers).
 Definition has_codegen (n : string) : bool :=
   match lookup n noparam_table with Some _ => true | None => match lookup n codegen_dispatch with Some _ => true | None => false end end.
@@ -33,15 +34,15 @@ Theorem C07_unknown_mnemonic_diagnosed : forall E s op ops, handler_of op = None
 Proof. intros E s op ops H. unfold do_mnemonic. rewrite H. repeat split. Qed.
 Print Assumptions C07_unknown_mnemonic_diagnosed.
 
-(* the silent drop, on the model: LOC advances, no ocode is recorded, no diagnostic *)
-Theorem C07_silent_drop_refuted : forall E s op ops n,
+(* after fix e3d2ac2 the formerly silent drop is diagnosed: LOC advances, no ocode is recorded, the diagnostic flag is raised *)
+Theorem C07_rejected_ocode_diagnosed : forall E s op ops n,
   In op silently_dropped -> enc_unmodelled E (bmode s) op ops = false -> enc_est E (bmode s) op ops = Some n ->
-  enc_diag E (bmode s) op ops = false -> enc_kind_ok E op = false ->
-  let s' := do_mnemonic E s op ops in ocodes s' = ocodes s /\ diag s' = diag s /\ loc s' = int32 (loc s + n).
+  enc_kind_ok E op = false ->
+  let s' := do_mnemonic E s op ops in ocodes s' = ocodes s /\ diag s' = true /\ loc s' = int32 (loc s + n).
 Proof.
-  intros E s op ops n Hin Hu He Hd Hk. rewrite C07_dropped_set in Hin. cbn [In] in Hin.
+  intros E s op ops n Hin Hu He Hk. rewrite C07_dropped_set in Hin. cbn [In] in Hin.
   destruct Hin as [<-|[<-|[<-|[<-|[<-|[]]]]]]; cbn zeta; unfold do_mnemonic;
     match goal with |- context [handler_of ?x] => let h := eval vm_compute in (handler_of x) in change (handler_of x) with h end;
-    cbn [String.eqb Ascii.eqb Bool.eqb]; rewrite Hu, He, Hd, Hk; repeat split.
+    cbn [String.eqb Ascii.eqb Bool.eqb]; rewrite Hu, He, Hk; unfold with_diag; destruct (enc_diag E (bmode s) _ ops); repeat split.
 Qed.
-Print Assumptions C07_silent_drop_refuted.
+Print Assumptions C07_rejected_ocode_diagnosed.
